@@ -202,6 +202,8 @@ pub struct VerifSnapshot {
     pub max_connections: usize,
     /// Per filter log: (filter, absolute offset of oldest retained entry, next offset).
     pub filters: Vec<(String, u64, u64)>,
+    /// Per filter log: (filter, number of segments held).
+    pub filter_segments: Vec<(String, usize)>,
 }
 
 #[derive(Debug, Clone, Default)]
